@@ -222,3 +222,120 @@ class Check:
         print("%s tier=%s seed=%d obligations=%d/%d validated=%s violations=%d wall=%.1fs" % (
             self.prop, self.tier, self.seed, ndis, nob, cov.get("traces_validated_against_impl"), nviol, time.time() - self.t0))
         return 1 if nviol else 0
+
+
+# ---------------------------------------------------------------------------- eval streams
+def unhex(h):
+    return "" if h == "-" else bytes.fromhex(h).decode("utf-8", "replace")
+
+
+def decode_req(line):
+    p = line.split(" ")
+    if p and p[0] == "eval" and len(p) >= 2:
+        return unhex(p[1])
+    return line
+
+
+def eval_stream(c, gen_sub, independent=True, budget_ms=3000, gen_extra=(), judge=None, group_start=None, corpus=None):
+    """dump registry, generate requests, run implementation and model, compare.
+    expect.txt (optional, aligned with req.txt) is the model-independent property oracle:
+    `err` means any error class; `-` means no expectation; anything else must match exactly.
+    `judge(request_text, impl_line)` may return a string describing a property violation."""
+    if not c.run_harness("dump"):
+        return None
+    if corpus:
+        extra = ["--corpus", corpus]
+    else:
+        extra = []
+    if not c.run_harness(gen_sub, extra=list(gen_extra) + extra):
+        return None
+    args = ["--budget-ms=%d" % budget_ms] + (["--independent"] if independent else [])
+    if not c.run_harness("eval-run", extra=args, timeout=7200):
+        return None
+    if not c.run_model("eval", extra=[os.path.join(c.work, "registry.dump")]):
+        return None
+    rd = lambda n: open(os.path.join(c.work, n), encoding="utf-8", errors="replace").read().split("\n")
+    R, I, M = rd("req.txt"), rd("impl.txt"), rd("model.txt")
+    E = rd("expect.txt") if os.path.exists(os.path.join(c.work, "expect.txt")) else None
+    n = len(R) - 1 if R and R[-1] == "" else len(R)
+    if not (len(I) >= n and len(M) >= n):
+        c.violation("streams", "answer streams are shorter than the request stream (req=%d impl=%d model=%d)" % (n, len(I), len(M)),
+                    {"kind": "obligation", "obligation": "correspondence stream " + gen_sub}, found=False)
+        return None
+    skipped = validated = oracle_checked = 0
+    start = 0
+    flagged = set()
+    kinds = {}
+    for i in range(n):
+        if group_start and R[i].startswith(group_start):
+            start = i
+        text = decode_req(R[i])
+        hist = [decode_req(x) for x in R[start:i + 1]] if group_start else [text]
+        key = " ;; ".join(hist)
+        kinds[I[i].split(" ")[0]] = kinds.get(I[i].split(" ")[0], 0) + 1
+        bad = None
+        if E is not None and E[i] != "-":
+            oracle_checked += 1
+            if E[i] == "err":
+                if not I[i].startswith("err"):
+                    bad = "expected an error (the result is undefined), implementation answered %r" % I[i][:120]
+            elif I[i] != E[i]:
+                bad = "expected %r, implementation answered %r" % (E[i][:160], I[i][:160])
+        if bad is None and judge:
+            bad = judge(text, I[i], hist)
+        if bad is None and I[i] in ("panic", "abort", "timeout"):
+            bad = "implementation answered %r" % I[i]
+        if bad:
+            flagged.add(i)
+            c.violation(key, "input %r: %s" % (text[:200], bad),
+                        {"kind": "input" if not group_start else "history", "input": text, "history": hist,
+                         "impl": I[i], "model": M[i], "expected": E[i] if E else None}, found=True)
+        if M[i].startswith("unsupported"):
+            skipped += 1
+            continue
+        validated += 1
+        if I[i] != M[i] and i not in flagged:
+            c.violation(key, "model/implementation disagreement on %r: impl=%r model=%r" % (text[:200], I[i][:160], M[i][:160]),
+                        {"kind": "input" if not group_start else "history", "input": text, "history": hist, "impl": I[i], "model": M[i],
+                         "correspondence": "rkh %s | rkh eval-run | rinkmodel eval" % gen_sub}, found=False)
+    c.coverage["traces_validated_against_impl"] = c.coverage.get("traces_validated_against_impl", 0) + validated
+    c.coverage["model_unsupported_skipped"] = c.coverage.get("model_unsupported_skipped", 0) + skipped
+    c.coverage["oracle_checked"] = c.coverage.get("oracle_checked", 0) + oracle_checked
+    c.coverage["impl_answer_kinds"] = kinds
+    c.coverage["evaluations"] = c.coverage.get("evaluations", 0) + n
+    c.coverage["distinct_nontrivial"] = len(set(R[:n]))
+    st = os.path.join(c.work, "stats.json")
+    return json.load(open(st)) if os.path.exists(st) else {}
+
+
+def eval_replay(prop, path):
+    """Re-runs the input/history of a replay file on implementation and model."""
+    r = json.load(open(path))
+    hist = r.get("history") or ([r["input"]] if "input" in r else [])
+    work = os.path.join(CACHE, "replay", prop)
+    os.makedirs(work, exist_ok=True)
+    sh(["cargo", "build", "--release", "--offline"], cwd=HARNESS)
+    sh(["lake", "build", "rinkmodel"], cwd=LEAN)
+    rc, enc = sh([RKH, "encode"], input=("\n".join(hist) + "\n").encode())
+    open(os.path.join(work, "req.txt"), "w").write("reset\n" + enc)
+    sh([RKH, "dump", "--out", work])
+    sh([RKH, "eval-run", "--out", work, "--budget-ms=5000"])
+    with open(os.path.join(work, "req.txt"), "rb") as fin:
+        p = subprocess.run([MODEL, "eval", os.path.join(work, "registry.dump")], stdin=fin, stdout=subprocess.PIPE)
+    I = open(os.path.join(work, "impl.txt")).read().split("\n")[1:]
+    M = p.stdout.decode().split("\n")[1:]
+    bad = False
+    print("input | implementation | model")
+    for h, a, b in zip(hist, I, M):
+        differs = a != b and not b.startswith("unsupported")
+        bad = bad or differs or a in ("panic", "abort", "timeout")
+        print("%s | %s | %s%s" % (h, a, b, "   <-- differs" if differs else ""))
+    exp = r.get("expected")
+    if exp and exp != "-" and I:
+        last = I[len(hist) - 1] if len(I) >= len(hist) else ""
+        if (exp == "err" and not last.startswith("err")) or (exp != "err" and last != exp):
+            print("expected: %s" % exp)
+            bad = True
+    if bad:
+        print("VIOLATION property=%s replay=%s" % (prop, path))
+    return 1 if bad else 0
